@@ -182,7 +182,7 @@ func TestC01(t *testing.T) {
 	r.Assume("small-scope: trees deeper than 2 levels, more than 3 names per directory and more than two file digests are outside the bound",
 		"a transition destroys exactly the nodes of Change.Old that match the disk (verified per node by Transition; decided separately by C08)",
 		"history leg (real sessions on disk) is covered by the session checks, not here")
-	us := universesFor([]Universe{universeS2()}, []Universe{universeS1x(), universeS3(), universeSP()})
+	us := universesFor([]Universe{universeS2(), universeSX()}, []Universe{universeS1x(), universeS3(), universeSP()})
 	runTriples(t, r, us, []core.SynchronizationMode{core.SynchronizationMode_SynchronizationModeTwoWaySafe}, oracleC01, nil)
 	if vr.ReplayCase() == nil {
 		// Multi-cycle histories (explicit-state search to closure; see history_test.go).
@@ -424,7 +424,7 @@ func TestC02(t *testing.T) {
 	defer r.Finish()
 	r.Rule("every triple of the tree universes (as C01) under one-way-safe, one-way-replica and two-way-resolved through the real core.Reconcile, plus the endpoint leg: a real local endpoint created as alpha of each one-way mode must refuse Stage and Transition and leave its root untouched; each case visited once; non-trivial = plan has a change or conflict")
 	r.Assume("small-scope tree universe as in C01", "a transition destroys exactly the nodes of Change.Old that match the disk")
-	us := universesFor([]Universe{universeS2()}, []Universe{universeS1x(), universeS3(), universeSP()})
+	us := universesFor([]Universe{universeS2(), universeSX()}, []Universe{universeS1x(), universeS3(), universeSP()})
 	runTriples(t, r, us, []core.SynchronizationMode{
 		core.SynchronizationMode_SynchronizationModeOneWaySafe,
 		core.SynchronizationMode_SynchronizationModeOneWayReplica,
@@ -442,7 +442,7 @@ func TestC03(t *testing.T) {
 	defer r.Finish()
 	r.Rule("every triple of the tree universes (as C01; SP with phantom directories in both tiers) in which alpha or beta contains untracked, problematic or phantom content, under all 4 modes, through the real core.Reconcile; plus an on-disk leg (real Scan + Transition over directories holding ignored files, FIFOs and non-UTF-8 names); non-trivial = plan has a change or conflict")
 	r.Assume("small-scope tree universe as in C01")
-	us := universesFor([]Universe{universeS2(), universeSP()}, []Universe{universeS3()})
+	us := universesFor([]Universe{universeS2(), universeSP(), universeSX()}, []Universe{universeS3()})
 	runTriples(t, r, us, allModes, oracleC03, func(a, x, y *E) bool { return hasUnsync(x) || hasUnsync(y) })
 	if vr.ReplayCase() == nil {
 		diskLegC03(t, r)
@@ -454,7 +454,7 @@ func TestC04(t *testing.T) {
 	defer r.Finish()
 	r.Rule("every triple of the tree universes (as C01) under all 4 modes: plan with the real Reconcile, apply it exactly (controller recipe for the ancestor via the real Apply; endpoint trees via Apply with results == New), reconcile again; non-trivial = first plan has a change or conflict")
 	r.Assume("small-scope tree universe as in C01", "history leg on real sessions is covered by the session checks")
-	us := universesFor([]Universe{universeS2()}, []Universe{universeS1x(), universeS3(), universeSP()})
+	us := universesFor([]Universe{universeS2(), universeSX()}, []Universe{universeS1x(), universeS3(), universeSP()})
 	runTriples(t, r, us, allModes, oracleC04, nil)
 }
 
@@ -463,6 +463,6 @@ func TestC06(t *testing.T) {
 	defer r.Finish()
 	r.Rule("every triple of the tree universes (as C01) under all 4 modes through the real core.Reconcile; pairwise path-overlap test over alpha changes, beta changes and conflict roots; conflict well-formedness; non-trivial = plan has a change or conflict")
 	r.Assume("small-scope tree universe as in C01")
-	us := universesFor([]Universe{universeS2()}, []Universe{universeS1x(), universeS3(), universeSP()})
+	us := universesFor([]Universe{universeS2(), universeSX()}, []Universe{universeS1x(), universeS3(), universeSP()})
 	runTriples(t, r, us, allModes, oracleC06, nil)
 }
